@@ -106,6 +106,10 @@ func (m *Machine) threadBody(t *Thread, body func()) {
 			if pa.kind == "deadlock" || pa.kind == "fatal" {
 				m.noteLiveness(pa)
 			}
+			if pa.kind == "unwind" && m.ghost["spin"] != nil {
+				// the harness declared that exceeding the loop bound means "spins forever"
+				m.noteLiveness(pathAbort{"spin", pa.msg})
+			}
 			m.finishPath(PathOutcome{pa.kind, pa.msg})
 			return
 		}
